@@ -182,7 +182,7 @@ PIPE_NOTE = ("Under contract from the pipeline (each per piece / per row / per f
 PROPS["C01"] = {
     "level": "other",
     "technique": "deductive verification of the steps that carry conservation (lookup returns source rows, trims produce sub-intervals, the cut QC is a sound gate, cut_fragments' pieces add up, bookkeeping of placed contigs, premises, left-over contigs kept) + bounded base-by-base conservation oracle over PretextView-model and perturbed maps, down to the files the CLI writes",
-    "level_text": "Proved: find_overlaps returns a window of the input scaffold's own row objects; discard/trim operations keep rows a sub-run of that window; trim_fragment returns a sub-interval of the trimmed contig under its name; qc_sub_fragments returns normally only if the pieces, sorted, abut pairwise, start at the contig's start and end at its end (exact partition) and otherwise raises; cut_fragments makes one such piece per overlap result, all sub-intervals, lengths adding up to the contig, the first piece (in contig order) keeping the contig's start and the last its end on either strand; store_fragments_found records every contig row of a placed piece under its (name, start, end), a second sighting marking it as found more than once, and lists the piece as a holder; add_overhang_premise makes exactly one what-if per holder that has the shared contig at an end (start premise for the first row, end premise for the last) and none for a holder that has it in the middle; the premises' bait overlap, what-if overhang, its change and `improves` equal interval arithmetic; add_missing_scaffolds_from_input keeps every contig the map did not place, whole and in order, in a left-over scaffold. Bounded: the composition over the whole run (every base of every input contig in exactly one output fragment across all output assemblies; errors instead of silent loss for perturbed maps).",
+    "level_text": "Proved: find_overlaps returns a window of the input scaffold's own row objects; discard/trim operations keep rows a sub-run of that window; trim_fragment returns a sub-interval of the trimmed contig under its name; qc_sub_fragments is an exact gate: it returns normally only if the pieces, sorted, abut pairwise, start at the contig's start and end at its end (exact partition), and it raises only if they do not (a consistent set of pieces is never rejected); cut_fragments makes one such piece per overlap result, all sub-intervals, lengths adding up to the contig, the first piece (in contig order) keeping the contig's start and the last its end on either strand; store_fragments_found records every contig row of a placed piece under its (name, start, end), a second sighting marking it as found more than once, and lists the piece as a holder; add_overhang_premise makes exactly one what-if per holder that has the shared contig at an end (start premise for the first row, end premise for the last) and none for a holder that has it in the middle; the premises' bait overlap, what-if overhang, its change and `improves` equal interval arithmetic; add_missing_scaffolds_from_input keeps every contig the map did not place, whole and in order, in a left-over scaffold, and raises nothing of its own (only naming may fail). Bounded: the composition over the whole run (every base of every input contig in exactly one output fragment across all output assemblies; errors instead of silent loss for perturbed maps).",
     "level_note": PIPE_NOTE,
     "lemmas": [],
     "bounded": [("bounded.c01", {})],
@@ -204,7 +204,7 @@ PROPS["C02"] = {
 PROPS["C07"] = {
     "level": "other",
     "technique": "deductive verification of Scaffold.append_scaffold (gap inserted iff joining onto existing rows), of the left-over rule of BuildAssembly.add_missing_scaffolds_from_input (per input row), of the fusion loop of BuildAssembly.scaffolds_fused_by_name (per piece: fused under (tag, haplotype, name), join gap iff joining), of the no-terminal-gap invariant of overlap results, of to_scaffold; bounded gap oracle over remapping runs",
-    "level_text": "Proved: append_scaffold inserts the given gap exactly when a gap is given and the scaffold already has rows, keeps the existing rows and appends the other scaffold's rows in order; find_overlaps and every trimming operation leave first and last rows that are contigs (no output piece begins or ends with a gap); to_scaffold keeps or exactly reverses the rows; scaffolds_fused_by_name skips pieces without rows and appends every other piece to the fused scaffold of its key (tag, haplotype, name) - created with the piece's name, tag, haplotype and rank when the key is new - behind the join gap exactly when that scaffold already had rows, keeping its earlier rows and every other fused scaffold (per iteration of the fusion loop). add_missing_scaffolds_from_input walks every input scaffold row by row (per-row postcondition over the inlined generator): a contig the map placed adds nothing, a contig it did not place is appended to the left-over scaffold (named after the input scaffold, rank 3) preceded by nothing when the previously appended contig is the row just before it, by the input gap row when exactly that gap row lies between the two, and by the join gap otherwise - the two sites of the repaired defects 0f837d3 / 7fa0cee are now under contract. Bounded: the gap rule over whole runs (adjacency only where the input had it, input gap only between its own neighbours, join gap elsewhere) - the two sites of the repaired defects (0f837d3, 7fa0cee).",
+    "level_text": "Proved: append_scaffold inserts the given gap exactly when a gap is given and the scaffold already has rows, keeps the existing rows and appends the other scaffold's rows in order; find_overlaps and every trimming operation leave first and last rows that are contigs (no output piece begins or ends with a gap); to_scaffold keeps or exactly reverses the rows; scaffolds_fused_by_name skips pieces without rows and appends every other piece to the fused scaffold of its key (tag, haplotype, name) - created with the piece's name, tag, haplotype and rank when the key is new - behind the join gap exactly when that scaffold already had rows, keeping its earlier rows and every other fused scaffold (per iteration of the fusion loop). add_missing_scaffolds_from_input walks every input scaffold row by row (per-row postcondition over the inlined generator): a contig the map placed adds nothing, a contig it did not place is appended to the left-over scaffold (named after the input scaffold, rank 3) preceded by nothing when the previously appended contig is the row just before it, by the input gap rows - all of them, in order - when only gap rows lie between the two, and by the join gap otherwise - the sites of the repaired defects 0f837d3 / 7fa0cee / 51684fd are under contract. Bounded: the gap rule over whole runs (adjacency only where the input had it, input gap only between its own neighbours, join gap elsewhere) - the two sites of the repaired defects (0f837d3, 7fa0cee).",
     "level_note": PIPE_NOTE,
     "lemmas": [],
     "bounded": [("bounded.c07", {})],
@@ -215,7 +215,7 @@ PROPS["C07"] = {
 PROPS["C08"] = {
     "level": "other",
     "technique": "lemma over the proved contracts of find_overlaps and trim_large_overhangs (an unedited scaffold is found whole and nothing is trimmed), per-row contract of add_missing_scaffolds_from_input (left-over pieces keep name and input gaps) + bounded null-map oracle",
-    "level_text": "Proved (lemma over contracts, real arithmetic on the texel size): for a bait [1, E] with |E - T| < bp per texel on a scaffold of length T whose first and last rows are contigs and whose last contig is at least one texel long, the lookup returns all rows with span [1, T] and the large-overhang rule (error length 1 + floor(bpt)) discards nothing. Bounded: that nothing else in the pipeline changes names, order, gaps or statistics for a null map, and the painted variant.",
+    "level_text": "Proved (lemma over contracts, real arithmetic on the texel size): for a bait [1, E] with |E - T| < bp per texel on a scaffold of length T whose first and last rows are contigs and whose last contig is at least one texel long, the lookup returns all rows with span [1, T] and the large-overhang rule (error length 1 + floor(bpt)) discards nothing; for a scaffold absent from the map, add_missing_scaffolds_from_input (per input row) keeps the input scaffold's name, leaves abutting contigs abutting and copies exactly the gap rows that lay between two contigs. Bounded: that nothing else in the pipeline changes names, order, gaps or statistics for a null map, and the painted variant.",
     "level_note": PIPE_NOTE,
     "lemmas": ["c08_unedited_scaffold_is_found_whole"],
     "bounded": [("bounded.c08", {})],
@@ -278,7 +278,7 @@ PROPS["C17"] = {
 PROPS["C04"] = {
     "level": "proof",
     "technique": "deductive verification of index_fasta_file from the real AST (three loops, two closures sharing nonlocal state) against a ghost model of the file and of the ACGT runs; of random access through the index (sequence_bytes over the faidx layout); lemmas over the contracts (layout, running totals by induction, stream-back); bounded exhaustive oracle over small files x all buffer sizes as cross-check and replay source",
-    "level_text": "Proved for every file that starts with a header line, whose header lines carry a name and whose records have a non-empty first sequence line (any number of records and lines, LF or CRLF, final newline or not, any buffer size >= 1): whenever index_fasta_file closes a record - at the next header line or after the last line - it adds exactly one index entry, under a name that was not present (so a duplicate name can only end in the ValueError), holding (residues on the record's sequence lines, byte offset after the header line, residues on the first sequence line, that plus the terminator width read off the header line), and exactly one scaffold of that name whose rows describe the record completely and in order: fragment rows name:start-end (1-based, forward, no tags) exactly over the maximal ACGT runs, gap rows (type scaffold) exactly over the stretches between them, alternating, run merging across buffer flushes included (invariant over the open region); earlier entries and scaffolds are left alone; a file without records never returns normally; no TypeError / IndexError / AttributeError / KeyError can occur; the sequence buffer never holds more than buffer_size residues between lines. Lemma (induction): those row coordinates are the running totals of the row lengths and the total is the record length. Random access: for every faidx entry with residues_per_line >= 1 and a terminator of at least one byte and every 1 <= start <= end <= length, sequence_bytes returns exactly residues start..end (each read on the next expected residue, inside one line, inside the record); FastaInfo stores the four numbers as given; lemmas: the layout function is the faidx layout, and a derived assembly that tiles the record streams back position by position.",
+    "level_text": "Proved for every file that starts with a header line, whose header lines carry a name and in which the first sequence line of a record is not blank (any number of records and lines - records without any sequence line included: entry (0, offset, 0, terminator width) and a scaffold without rows -, LF or CRLF, final newline or not, any buffer size >= 1): whenever index_fasta_file closes a record - at the next header line or after the last line - it adds exactly one index entry, under a name that was not present (so a duplicate name can only end in the ValueError), holding (residues on the record's sequence lines, byte offset after the header line, residues on the first sequence line, that plus the terminator width read off the header line), and exactly one scaffold of that name whose rows describe the record completely and in order: fragment rows name:start-end (1-based, forward, no tags) exactly over the maximal ACGT runs, gap rows (type scaffold) exactly over the stretches between them, alternating, run merging across buffer flushes included (invariant over the open region); earlier entries and scaffolds are left alone; a file without records never returns normally; no TypeError / IndexError / AttributeError / KeyError can occur; the sequence buffer never holds more than buffer_size residues between lines. Lemma (induction): those row coordinates are the running totals of the row lengths and the total is the record length. Random access: for every faidx entry with residues_per_line >= 1 and a terminator of at least one byte and every 1 <= start <= end <= length, sequence_bytes returns exactly residues start..end (each read on the next expected residue, inside one line, inside the record); FastaInfo stores the four numbers as given; get_fasta_seq returns the whole record through the interval 1..length and, for a record without residues (which has no line width to do arithmetic with), no residues without asking sequence_bytes - the callee's precondition is an obligation of the caller, which is how the ZeroDivisionError of the pinned tree shows up as a refuted obligation; lemmas: the layout function is the faidx layout, and a derived assembly that tiles the record streams back position by position.",
     "level_note": "Trusted: the ghost models of file iteration, bytes lines, io.BytesIO and re.finditer (listed under trusted_base) - their agreement with CPython is what the bounded tier checks on every run (all files with up to 3 records of up to 7-10 residues x 24 layouts x every buffer size against an independent faidx / tiling oracle); uniform line width within a record is needed only to read 'bytes per full line' as the length of every full line (the number stored is first-line residues + terminator width, as proved).",
     "lemmas": ["c04_random_access_layout", "c04_rows_tile_by_running_total", "c04_derived_assembly_streams_back"],
     "bounded": [("bounded.c04", {})],
